@@ -489,6 +489,90 @@ class H:
         return False
 
 
+    @staticmethod
+    def _reg_after(e, p):
+        view = {tuple(o['id']): o for o in (e.get('obs') or {}).get('view') or []}
+        o = view.get(tuple(p['obj']))
+        if not o:
+            return None
+        if p.get('iskey') or p.get('act') in ('PutMap', 'DeleteMap'):
+            for r in o.get('ents') or []:
+                if r['k'] == p.get('key'):
+                    return r
+            return None
+        regs = o.get('elems') or o.get('units') or []
+        i = p.get('index', -1)
+        return regs[i] if 0 <= i < len(regs) else None
+
+    @staticmethod
+    def incr_then_insert(e):
+        """a remote batch increments the list element at index i and inserts right after it: the Insert patch is
+        logged with index i although the new element stands at i + 1 afterwards"""
+        ps = e.get('patches') or []
+        view = {tuple(o['id']): o for o in (e.get('obs') or {}).get('view') or []}
+        for a, p1 in enumerate(ps):
+            if p1.get('act') != 'Increment' or p1.get('iskey'):
+                continue
+            for p2 in ps[a + 1:]:
+                if p2.get('act') == 'Insert' and p2['obj'] == p1['obj'] and p2.get('index') == p1.get('index') and p2.get('values'):
+                    o = view.get(tuple(p2['obj']))
+                    regs = (o.get('elems') or o.get('units') or []) if o else []
+                    j = p2['index'] + 1
+                    if j < len(regs) and any(v['id'] == p2['values'][0]['id'] for v in regs[j]['vals']):
+                        return True
+        return False
+
+    @staticmethod
+    def conflict_patch_on_single(e):
+        """a Conflict patch of a remote batch names a register that holds a single value afterwards"""
+        for p in e.get('patches') or []:
+            if p.get('act') == 'Conflict':
+                r = H._reg_after(e, p)
+                if r is not None and len(r.get('vals', [])) == 1:
+                    return True
+        return False
+
+    @staticmethod
+    def increment_on_deconflicted(c):
+        """a remote batch increments a counter of a register that was conflicted before the batch and is not
+        afterwards (the other value was deleted in the same batch): only the Increment patch is logged"""
+        sc, idx, e = c.get('scenario') or [], c.get('index', -1), c.get('event') or {}
+        before = None
+        for p in reversed(sc[:idx]):
+            if p.get('r') == e.get('r') and 'view' in (p.get('obs') or {}):
+                before = p
+                break
+        if before is None:
+            return False
+        for p in e.get('patches') or []:
+            if p.get('act') == 'Increment':
+                ra, rb = H._reg_after(e, p), H._reg_after(before, p)
+                if ra is not None and rb is not None and len(rb.get('vals', [])) > 1 and len(ra.get('vals', [])) == 1:
+                    return True
+        return False
+
+    @staticmethod
+    def insert_patch_misordered(e):
+        """some Insert patch of the event lists its values in another relative order than the document holds them
+        afterwards (separate inserts coalesced into one patch, the later one with an unadjusted index)"""
+        view = {tuple(o['id']): o for o in (e.get('obs') or {}).get('view') or []}
+        for p in e.get('patches') or []:
+            if p.get('act') != 'Insert' or len(p.get('values') or []) < 2:
+                continue
+            o = view.get(tuple(p['obj']))
+            if not o:
+                continue
+            regs = o.get('elems') or o.get('units') or []
+            pos = {}
+            for i, r in enumerate(regs):
+                for v in r.get('vals', []):
+                    pos[tuple(v['id'])] = i
+            idx = [pos.get(tuple(v['id'])) for v in p['values']]
+            if all(x is not None for x in idx) and idx != sorted(idx):
+                return True
+        return False
+
+
 def match_known(k, desc, cls, obj):
     """A known finding matches when its 'check' name is among the failed checks (or its 'desc_re'
     matches the description) AND its class predicate (a python expression over cls) holds."""
